@@ -41,6 +41,11 @@ def _std_getitem_variants(props_idx=('C02',), props_key=('C03',), with_key=True,
                           req_idx=None, req_key=None, inline=()):
     vs = [Variant('int', params={'item': 'int'}, requires=req_idx or (lambda S: self_view(S).idx),
                   post=post_getitem_int(self_view), props=props_idx, loops=loops or {}, inline=inline)]
+    # the same index as a numpy fixed-width scalar (C02: "including numpy integer types"): index arithmetic must not
+    # wrap around or overflow
+    for np_kind in ('np.int8', 'np.uint8'):
+        vs.append(Variant('int:' + np_kind, params={'item': np_kind}, requires=req_idx or (lambda S: self_view(S).idx),
+                          post=post_getitem_int(self_view), props=props_idx, loops=loops or {}, inline=inline))
     if with_key:
         vs.append(Variant('str', params={'item': 'key'}, requires=req_key or (lambda S: self_view(S).keys),
                           post=post_getitem_key(self_view), props=props_key, loops=loops or {}, inline=inline))
